@@ -405,7 +405,104 @@ Proof.
   assert (Htl : forall (x : list Z), (length (tl x) <= length x)%nat) by (intros [|? ?]; cbn; lia).
   pose proof (Htl t). pose proof (Htl (tl t)). pose proof (Htl (tl (tl t))). pose proof (Htl (tl (tl (tl t)))).
   injection H as H. cbn [length].
-  destruct c as [|c|c]; [|destruct c as [c|c|]; [destruct c as [c|c|]|destruct c as [c|c|]|]|].
-  all: injection H as <- <-; (split; [try exact I; try (apply Hmk; try exact I; lia)|lia]).
-  all: try (destruct (varint_max <? _); exact I).
+  repeat match type of H with context [match ?x with _ => _ end] => destruct x end;
+    injection H as <- <-; (split; [try exact I; try (apply Hmk; try exact I; lia)|lia]).
 Qed.
+
+(* ---- every record the model prints is accepted by the judge ---- *)
+Lemma zeqb_list_refl : forall l, zeqb_list l l = true.
+Proof.
+  intros l. unfold zeqb_list. rewrite Nat.eqb_refl. cbn [andb].
+  induction l as [|x l IH]; cbn [combine forallb]; [reflexivity|]. cbn [fst snd]. rewrite Z.eqb_refl. exact IH.
+Qed.
+Lemma sp_obs_5 : forall s, exists a b c d e, sp_obs s = [a; b; c; d; e].
+Proof. intros s. unfold sp_obs. cbv zeta. eauto 10. Qed.
+
+Lemma split8 : forall (rec rest : list Z), length rec = 8%nat -> firstn 8 (rec ++ rest) = rec /\ skipn 8 (rec ++ rest) = rest.
+Proof.
+  intros rec rest H. do 8 (destruct rec as [|? rec]; [discriminate|]). destruct rec; [|discriminate].
+  split; reflexivity.
+Qed.
+
+Section WithWrite2.
+Hypothesis W : WriteOK.
+
+Lemma step_rec : forall tt salt st s l o rest k, (length tt >= 512)%nat -> Abs st s ->
+  decode1 tt salt l = Some (o, rest) ->
+  exists rec st' s', length rec = 8%nat /\ run_from (S k) tt salt st l = rec ++ run_from k tt salt st' rest
+    /\ judge_op s o rec = Some s' /\ Abs st' s'.
+Proof.
+  intros tt salt st s l o rest k Ht Ha Hdec. destruct (decode1_wf _ _ _ _ _ Ht Hdec) as [Hwf _].
+  cbn [run_from]. rewrite Hdec. destruct o as [op|].
+  2:{ destruct (Abs_obs _ _ Ha) as [ch Eo]. destruct (sp_obs_5 s) as (x0 & x1 & x2 & x3 & x4 & E5).
+      exists (1%Z :: 0%Z :: r_obs st), st, s. rewrite Eo, E5. cbn [app length].
+      split; [reflexivity|]. split; [reflexivity|]. split; [|exact Ha].
+      unfold judge_op. rewrite E5, zeqb_list_refl. reflexivity. }
+  destruct op as [w|wm|n|]; cbn [rstep].
+  - destruct (rwrite st w) as [st' c] eqn:E. cbn [wf_dop] in Hwf.
+    destruct (write_abs W _ _ _ _ _ Ha Hwf E) as [Ha' Hacc].
+    destruct (Abs_obs _ _ Ha') as [ch Eo]. destruct (sp_obs_5 (fst (spec_write s w))) as (x0 & x1 & x2 & x3 & x4 & E5).
+    assert (Hoof : oof st' = false) by (destruct Ha' as ((_ & _ & _ & _ & Ho) & _); exact Ho).
+    exists ([c; 0%Z] ++ r_obs st'), st', (fst (spec_write s w)). rewrite Hoof, Eo, E5. cbn [app length].
+    split; [reflexivity|]. split; [reflexivity|]. split; [|exact Ha'].
+    unfold judge_op. destruct (spec_write s w) as [s' acc]. cbn [fst snd] in *. rewrite E5, zeqb_list_refl.
+    assert (Bool.eqb acc (c =? 0)%Z = true).
+    { destruct (Z.eqb_spec c 0) as [e|ne]; destruct acc; try reflexivity; exfalso.
+      - apply Hacc in e. discriminate. - apply ne. apply Hacc. reflexivity. }
+    rewrite H. reflexivity.
+  - destruct (rpop st wm) as [[st' n] chunk] eqn:E.
+    destruct (pop_abs _ _ _ _ _ _ Ha E) as (Ha' & Hsize & h & Eh & Ehc).
+    destruct (Abs_obs _ _ Ha') as [ch Eo]. destruct (sp_obs_5 (sp_take s n)) as (x0 & x1 & x2 & x3 & x4 & E5).
+    assert (Hoof : oof st' = false) by (destruct Ha' as ((_ & _ & _ & _ & Ho) & _); exact Ho).
+    exists ([Nz n; Nz (cks_out (cks (0, 0) chunk))] ++ r_obs st'), st', (sp_take s n). rewrite Hoof, Eo, E5. cbn [app length].
+    split; [reflexivity|]. split; [reflexivity|]. split; [|exact Ha'].
+    unfold judge_op. destruct (Z.ltb_spec (Nz n) 0) as [Hneg|_]; [unfold Nz in Hneg; lia|].
+    replace (zN (Nz n)) with n by (unfold zN, Nz; lia).
+    rewrite Eh, Hsize, E5, zeqb_list_refl. subst h. rewrite Z.eqb_refl. reflexivity.
+  - destruct (rskip st n) as [st' c] eqn:E.
+    destruct (skip_abs _ _ _ _ _ Ha E) as [Ha' Hacc].
+    destruct (Abs_obs _ _ Ha') as [ch Eo]. destruct (sp_obs_5 (fst (spec_skip s n))) as (x0 & x1 & x2 & x3 & x4 & E5).
+    assert (Hoof : oof st' = false) by (destruct Ha' as ((_ & _ & _ & _ & Ho) & _); exact Ho).
+    exists ([c; 0%Z] ++ r_obs st'), st', (fst (spec_skip s n)). rewrite Hoof, Eo, E5. cbn [app length].
+    split; [reflexivity|]. split; [reflexivity|]. split; [|exact Ha'].
+    unfold judge_op. destruct (spec_skip s n) as [s' acc]. cbn [fst snd] in *. rewrite E5, zeqb_list_refl.
+    assert (Bool.eqb acc (c =? 0)%Z = true).
+    { destruct (Z.eqb_spec c 0) as [e|ne]; destruct acc; try reflexivity; exfalso.
+      - apply Hacc in e. discriminate. - apply ne. apply Hacc. reflexivity. }
+    rewrite H. reflexivity.
+  - destruct (Abs_obs _ _ Abs_init) as [ch Eo]. destruct (sp_obs_5 spec_init) as (x0 & x1 & x2 & x3 & x4 & E5).
+    exists ([0%Z; 0%Z] ++ r_obs rinit), rinit, spec_init. cbn [oof rinit]. rewrite Eo, E5. cbn [app length].
+    split; [reflexivity|]. split; [reflexivity|]. split; [|exact Abs_init].
+    unfold judge_op. rewrite E5, zeqb_list_refl. reflexivity.
+Qed.
+
+Lemma judge_run_from : forall fuel tt salt st s l, (length tt >= 512)%nat -> (length l < fuel)%nat -> Abs st s ->
+  judge_from fuel tt salt s l (run_from fuel tt salt st l) = true.
+Proof.
+  induction fuel as [|k IH]; intros tt salt st s l Ht Hl Ha; [lia|].
+  destruct (decode1 tt salt l) as [[o rest]|] eqn:Hdec.
+  - destruct (step_rec _ _ _ _ _ _ _ k Ht Ha Hdec) as (rec & st' & s' & Hlen & Hrun & Hj & Ha').
+    rewrite Hrun. cbn [judge_from]. rewrite Hdec. destruct (split8 rec (run_from k tt salt st' rest) Hlen) as [E1 E2].
+    rewrite E1, E2, Hj. apply IH; auto. destruct (decode1_wf _ _ _ _ _ Ht Hdec) as [_ Hs]. lia.
+  - cbn [judge_from]. rewrite Hdec. reflexivity.
+Qed.
+
+(* the specification's judgement accepts every run of the slot model, on every case *)
+Lemma judge_run : forall case, judge case (run case) = true.
+Proof.
+  intros case. unfold judge, run. cbv zeta. apply judge_run_from.
+  - rewrite app_length, table_length. lia.
+  - destruct case; cbn [tl length]; lia.
+  - apply Abs_init.
+Qed.
+
+(* full refinement: along every operation sequence the abstraction relation holds, i.e. RInv (Inv), equal cursors,
+   and the byte map of the slots equals the first-write-wins map at and above the consumed offset *)
+Lemma abs_all : forall ops st s, Forall wf_op ops -> Abs st s ->
+  Abs (fold_left (fun st o => fst (rstep st o)) ops st)
+      (fold_left (fun s' on => fst (sstep_with s' (fst on) (snd on)))
+                 (snd (fold_left (fun acc o => (fst (rstep (fst acc) o), snd acc ++ [(o, popped_n (fst acc) o)])) ops (st, [])))
+                 s).
+Proof.
+Abort.
+End WithWrite2.
